@@ -15,8 +15,9 @@ deadline on the monotonic clock (milliseconds).  Wall clock and monotonic clock 
 inputs of every step (`Env`), so skew and wall-clock adjustments are ordinary inputs.
 The cron alarm delegates to the third-party ccronexpr and is not modelled (see plugin notes).
 
-The model follows the tree WITH patches/C20-01 (64-bit millisecond conversion) and
-patches/C20-02 (disable() forgets the stale target); the arithmetic of the unpatched tree is
+The model follows the tree WITH patches/C20-01 (64-bit millisecond conversion), C20-02 (disable()
+forgets the stale target), C20-03 (WorkdayAlarm destructor unsubscribes) and C20-07 (the last served
+instant is remembered and never armed again); the arithmetic of the unpatched tree is
 kept as `delayMs32` for the counterexample theorem.
 -/
 namespace Tbox.C20
@@ -94,9 +95,7 @@ structure Alarm where
   subs    : Nat := 0                -- entries of this alarm in the calendar's watch list
   nFired  : Nat := 0                -- ghost: callbacks-or-expiries so far
   nEnabled : Nat := 0               -- ghost: successful enable() calls so far
-  lastServed : Nat := 0             -- ghost: the instant the last expiry stood for
-  early   : Bool := false           -- ghost: some arm started from a base BEFORE lastServed (refresh()/enable()
-                                    --        while the wall clock was behind the instant already served)
+  lastServed : Nat := 0             -- last_fired_utc_sec_ (patches/C20-07): the instant the last expiry stood for
   wrapped : Bool := false           -- ghost: some arm happened outside the no-wrap range `InRange`
 deriving Repr
 
@@ -132,8 +131,12 @@ def delayMs32 (remainSec ms : Nat) : Nat :=
 def delayMs (remainSec ms : Nat) : Nat :=
   (UInt64.ofNat remainSec * 1000 - UInt64.ofNat ms).toNat
 
-/-- the time-zone offset activeTimer uses (system zone = UTC in the harness: TZ=UTC) -/
-def Alarm.offset (a : Alarm) : Int := if a.tzSet then a.off else 0
+/-- GetSystemTimezoneOffsetSeconds(): the harness pins the system zone to UTC+3 without DST
+(TZ=VRF-3), so that "no explicit zone" is distinguishable from "explicit zone 0" -/
+def sysOffset : Int := 10800
+
+/-- the time-zone offset activeTimer uses -/
+def Alarm.offset (a : Alarm) : Int := if a.tzSet then a.off else sysOffset
 
 /-- no uint32 wrap around the local computation that starts at UTC second `start` with
 time-zone offset `off`: local start not before 1970, and 368 days of head-room below 2^32
@@ -143,17 +146,24 @@ def InRange (start : Nat) (off : Int) : Prop :=
 
 instance (start : Nat) (off : Int) : Decidable (InRange start off) := by unfold InRange; infer_instance
 
-/-- the alarm after a successful arm for UTC target `T` with delay `d` (ghost flags updated) -/
+/-- where activeTimer starts its search (UTC second): the current second, the pending target, or the
+last instant already served — whichever is latest (patches/C20-07) -/
+def Alarm.base (a : Alarm) (e : Env) : Nat := max (max e.sec a.target) a.lastServed
+
+/-- the as-found base (before patches/C20-07): an instant already served is not remembered once
+refresh()/disable() cleared the target — kept for the counterexample theorem -/
+def Alarm.baseAsFound (a : Alarm) (e : Env) : Nat := max e.sec a.target
+
+/-- the alarm after a successful arm for UTC target `T` with delay `d` (ghost flag updated) -/
 def armed (a : Alarm) (e : Env) (T d : Nat) : Alarm :=
   { a with timer := some (e.monoMs + d), st := .running, target := T,
-           early := a.early || decide (max e.sec a.target < a.lastServed),
-           wrapped := a.wrapped || !decide (InRange (max e.sec a.target) a.offset) }
+           wrapped := a.wrapped || !decide (InRange (a.base e) a.offset) }
 
 /-- Alarm::activeTimer -/
 def activeTimer (a : Alarm) (e : Env) : Alarm × Bool :=
   let cur := e.sec
   let off := a.offset
-  let start := max cur a.target
+  let start := a.base e
   let localStart := addOff start off
   match calcNext a e.cal localStart with
   | none => (a, false)
